@@ -284,6 +284,9 @@ def run(chk: Check, eng: Engine) -> None:
                     "the forecaster rebuilds the history with fresh (writable) message roots: a repair aimed at an earlier, already exchanged message rewrites it, and "
                     "Fandango continues the run against a conversation that never took place", path=gcfg.describe_path(p) if p else [], keyparts="history-unsealed")
 
+    chk.rule("R20-i", "the protocol grammar is cut down to the visible parties by removing grammar nodes by identity (messages of the same type differ in their parties only)", floor=2)
+    from .c19 import node_list_identity_rule
+    node_list_identity_rule(chk, eng, "R20-i")
     chk.rule("R20-h", "a parse of the history is adopted only if every message agrees with the recorded one in type, sender and recipient (each conjunct compares the two messages)", floor=1)
     pair_agreement_rule(chk, eng, "R20-h")
     chk.rule("R20-g", "the fragment scanner returns a position of the receive buffer it was given together with the fragment at that position (the position is later compared "
